@@ -1,1 +1,182 @@
-void h(void){}
+/* Unit timer_service (property C08, epoll TimerService): clauses written from the property statement
+ *   "a handler runs at most once and not before its deadline; the k-th firing of a periodic timer happens no earlier than k intervals
+ *    after it was scheduled; if cancel reports success the handler never starts afterwards; if it reports failure the handler has run
+ *    or will run exactly once - never silently dropped"
+ * for the two routines that decide, under _mutex, what is handed to the runner: collectDueLocked (one loop iteration, R18) and cancel.
+ * Map state is tracked for ONE arbitrary ghost id GID (witness key): a clause proved for arbitrary GID holds for every id.
+ *
+ * State invariant INV (hand-written, about GID):
+ *   record(GID) present  ==> key field == GID
+ *   periodic(GID) present ==> key field == GID  and  INV_P: interval > 0
+ * INV_P is NOT assumed out of thin air: proof periodic_guard shows that schedulePeriodic (the only place that stores a PeriodicTimer;
+ * `interval` is never assigned afterwards) goes on to store one only if interval > 0. On the unchanged tree that proof FAILS (finding T2). */
+
+#define TIME_OK(t) ((t) >= -((int64_t)1 << 61) && (t) <= ((int64_t)1 << 61))
+
+size_t G_pops, G_sifts, G_sift_idx;
+#ifndef HEAP_CONCRETE
+/* recording contracts that REPLACE the heap maintenance in the step proof (heap order itself: bounded proofs below) */
+void TimerService_heapPop_rec(TimerService *self)
+__CPROVER_requires(self->_heap.n > 0)
+__CPROVER_assigns(G_pops, self->_heap.n, self->_heap.front)
+__CPROVER_ensures(G_pops == __CPROVER_old(G_pops) + 1 && self->_heap.n == __CPROVER_old(self->_heap.n) - 1)
+;
+void TimerService_siftUp_rec(TimerService *self, size_t idx)
+__CPROVER_assigns(G_sifts, G_sift_idx)
+__CPROVER_ensures(G_sifts == __CPROVER_old(G_sifts) + 1 && G_sift_idx == idx)
+;
+#endif
+
+#define INV_STATE(S) \
+  __CPROVER_assume(!(S)._records.present || ((S)._records.w.first == GID && TIME_OK((S)._records.w.second.tp))); \
+  __CPROVER_assume(!(S)._periodicTimers.present || ((S)._periodicTimers.w.first == GID && (S)._periodicTimers.w.second.interval > 0 \
+                   && (S)._periodicTimers.w.second.interval <= ((int64_t)1 << 61) && TIME_OK((S)._periodicTimers.w.second.nextExecution)));
+
+#ifndef HEAP_CONCRETE
+/* ---------------------------------------------------------------------------------------------------------------- */
+/* ONE iteration of collectDueLocked's loop, for every state with a non-empty heap (loop condition) satisfying INV    */
+void h_collect_step(void)
+{
+  TimerService S; iora_hvec out; int64_t now = nondet_i64();
+  IORA_TRUE = 1; G_pops = 0; G_sifts = 0; G_rec_erases = 0; G_rec_emplaces = 0; G_per_erases = 0;
+  __CPROVER_assume(TIME_OK(now) && S._heap.n >= 1 && S._heap.n < ((size_t)1 << 60) && TIME_OK(S._heap.front.tp) && out.n < ((size_t)1 << 60));
+  S._heap.pushes = 0;
+  INV_STATE(S)
+  const bool rp0 = S._records.present, pp0 = S._periodicTimers.present;
+  const Record r0 = S._records.w.second; const PeriodicTimer p0 = S._periodicTimers.w.second;
+  const HeapItem top0 = S._heap.front; const size_t n0 = out.n, hn0 = S._heap.n;
+
+  int r = TimerService_collectStep(&S, now, &out);
+  IORA_CANARY("h_collect_step: returns");
+
+  const bool emitted = out.n == n0 + 1;
+  /* D0 */ __CPROVER_assert((r == 1) == (top0.tp > now), "D0 the loop stops exactly when the earliest heap item is later than now");
+  /* D1 */ __CPROVER_assert(out.n == n0 || emitted, "D1 one iteration hands out at most one handler");
+  /* D1 */ __CPROVER_assert(!emitted || top0.tp <= now, "D1 not early: a handler is handed out only if the popped heap item's time <= now");
+  if (r == 1) {
+    IORA_CANARY("h_collect_step: break");
+    __CPROVER_assert(G_pops == 0 && out.n == n0 && S._heap.n == hn0 && G_rec_erases == 0 && G_per_erases == 0 && G_rec_emplaces == 0
+                     && S._records.present == rp0 && S._periodicTimers.present == pp0, "D0 nothing is changed by the iteration that stops the loop");
+  } else {
+    /* D4 */ __CPROVER_assert(G_pops == 1, "D4 every continuing iteration pops exactly one heap item");
+  }
+  if (top0.id == GID && r != 1) {
+    const bool live = rp0 && !r0.canceled;
+    /* D2 */ __CPROVER_assert(emitted == live, "D2 the popped id's handler is handed out iff its record exists and is not canceled (cancel success => never starts; pending => not dropped)");
+    /* D2 */ __CPROVER_assert(!emitted || out.last == r0.handler, "D2 the handler handed out is the record's handler");
+    /* D3 */ __CPROVER_assert(!rp0 || G_rec_erases == 1, "D3 at most once: the record found is erased before the iteration ends");
+    const bool rearm = live && pp0 && !p0.canceled;
+    if (rearm) {
+      IORA_CANARY("h_collect_step: periodic re-arm");
+      /* D5 */ __CPROVER_assert(S._periodicTimers.present && S._periodicTimers.w.second.nextExecution == p0.nextExecution + p0.interval, "D5 periodic re-arm: nextExecution += interval (k-th firing no earlier than k intervals after scheduling)");
+      /* D5 */ __CPROVER_assert(S._records.present && S._records.w.second.tp == p0.nextExecution + p0.interval && !S._records.w.second.canceled && S._records.w.second.handler == p0.handler, "D5 the re-armed record carries the new time, the periodic handler, not canceled");
+      /* D5 */ __CPROVER_assert(S._heap.pushes == 1 && S._heap.pushed.tp == p0.nextExecution + p0.interval && S._heap.pushed.id == GID && G_sifts == 1 && G_sift_idx == S._heap.n - 1, "D5 exactly one heap item (new time, same id) is pushed and sifted up");
+      /* D6 */ __CPROVER_assert(S._periodicTimers.w.second.nextExecution > p0.nextExecution, "D6 progress: a re-armed timer is strictly later than the firing just collected (needs INV_P: interval > 0)");
+      __CPROVER_assert(S._periodicTimers.w.second.interval == p0.interval && S._periodicTimers.w.second.handler == p0.handler, "D5 interval and handler of the periodic timer are unchanged");
+    } else {
+      /* D3 */ __CPROVER_assert(!S._records.present, "D3 without a re-arm the id has no record after the iteration (a second heap item for it is discarded)");
+      /* D7 */ __CPROVER_assert(S._heap.pushes == 0 && G_rec_emplaces == 0, "D7 nothing is re-armed for a one-shot, a canceled record or a canceled periodic timer");
+      /* D7 */ __CPROVER_assert(!(rp0 && pp0) || !S._periodicTimers.present, "D7 a periodic timer whose record was collected but is not re-armed is erased");
+      __CPROVER_assert(rp0 || (S._periodicTimers.present == pp0), "D7 a stale heap item (no record) changes nothing else");
+    }
+  }
+  if (top0.id != GID) {
+    /* D8 */ __CPROVER_assert(S._records.present == rp0 && (!rp0 || (S._records.w.second.tp == r0.tp && S._records.w.second.canceled == r0.canceled && S._records.w.second.handler == r0.handler)), "D8 frame: collecting another id leaves this id's record alone");
+    /* D8 */ __CPROVER_assert(S._periodicTimers.present == pp0 && (!pp0 || (S._periodicTimers.w.second.nextExecution == p0.nextExecution && S._periodicTimers.w.second.interval == p0.interval && S._periodicTimers.w.second.canceled == p0.canceled)), "D8 frame: collecting another id leaves this id's periodic timer alone");
+  }
+}
+
+/* ---------------------------------------------------------------------------------------------------------------- */
+void h_cancel(void)
+{
+  TimerService S; uint64_t id = nondet_u64();
+  IORA_TRUE = 1; G_pokes = 0; G_rec_erases = 0; G_per_erases = 0; G_rec_emplaces = 0;
+  INV_STATE(S)
+  const bool rp0 = S._records.present, pp0 = S._periodicTimers.present;
+  const Record r0 = S._records.w.second; const PeriodicTimer p0 = S._periodicTimers.w.second;
+
+  bool ok = TimerService_cancel(&S, id);
+  IORA_CANARY("h_cancel: returns");
+
+  if (id == GID) {
+    /* X1 */ __CPROVER_assert(ok == ((rp0 && !r0.canceled) || pp0), "X1 cancel reports success iff the id has a live record or a periodic timer");
+    if (ok) {
+      IORA_CANARY("h_cancel: success");
+      /* X2 */ __CPROVER_assert(!S._records.present || S._records.w.second.canceled, "X2 success: the record (if any) is marked canceled before return - collectDueLocked (D2) never hands it out afterwards");
+      /* X2 */ __CPROVER_assert(!S._periodicTimers.present, "X2 success: the periodic timer is gone before return - no re-arm afterwards (D5 needs it)");
+    } else {
+      IORA_CANARY("h_cancel: failure");
+      /* X3 */ __CPROVER_assert(!rp0 || r0.canceled, "X3 failure: the id had no live record (already collected, already canceled, or never scheduled)");
+      /* X3 */ __CPROVER_assert(S._records.present == rp0 && S._periodicTimers.present == pp0 && G_pokes == 0, "X3 failure changes nothing");
+    }
+    /* X5 */ __CPROVER_assert(S._records.present == rp0 && (!rp0 || (S._records.w.second.tp == r0.tp && S._records.w.second.handler == r0.handler)), "X5 cancel never erases the record and never changes its time/handler (lazy discard by collectDueLocked)");
+    /* X6 */ __CPROVER_assert((G_pokes == 1) == (rp0 && !r0.canceled) && G_pokes <= 1, "X6 the service thread is poked iff a live record was canceled");
+  } else {
+    /* X4 */ __CPROVER_assert(S._records.present == rp0 && (!rp0 || (S._records.w.second.canceled == r0.canceled && S._records.w.second.tp == r0.tp)) && S._periodicTimers.present == pp0 && (!pp0 || S._periodicTimers.w.second.canceled == p0.canceled),
+                              "X4 frame: canceling another id never cancels this one");
+  }
+}
+
+/* ---------------------------------------------------------------------------------------------------------------- */
+/* INV_P establishment: schedulePeriodic's guard prefix (everything before `auto deadline = Clock::now() + interval;`)  */
+void h_periodic_guard(void)
+{
+  TimerService S; int64_t interval = nondet_i64();
+  IORA_TRUE = 1; G_guard_passed = 0; G_errors = 0;
+  __CPROVER_assume(TIME_OK(interval));     /* chrono overflow of Clock::now() + interval for |interval| near 2^63: observation O3, not part of C08 */
+  uint64_t r = TimerService_schedulePeriodicGuard(&S, interval);
+  IORA_CANARY("h_periodic_guard: returns");
+  if (G_guard_passed) { IORA_CANARY("h_periodic_guard: accepted"); }
+  /* P1 */ __CPROVER_assert(!G_guard_passed || interval > 0, "P1 schedulePeriodic goes on to store a periodic timer only if interval > 0 (INV_P; otherwise the re-armed time never passes now and collectDueLocked does not terminate)");
+  /* P2 */ __CPROVER_assert(G_guard_passed || (r == 0 && G_errors == 1), "P2 a refused request returns id 0 and reports an error (refused, not lost)");
+  /* P3 */ __CPROVER_assert(S._accepting || !G_guard_passed, "P3 scheduling on a service that is not accepting is refused");
+}
+#endif
+
+#ifdef HEAP_CONCRETE
+/* ---------------------------------------------------------------------------------------------------------------- */
+/* bounded stand-in B(7): heap order of siftUp / siftDown / heapPop on up to 7 items (written-out harness, no harness loops) */
+HeapItem GX;   /* arbitrary witness value for the multiset clause */
+#define HA(S, i) ((S)._heap.a[i])
+#define PARENT_OK(S, i) (!((i) < (S)._heap.n) || !less(&HA(S, i), &HA(S, ((i) - 1) / 2)))
+#define HEAP_OK(S) (PARENT_OK(S, 1) && PARENT_OK(S, 2) && PARENT_OK(S, 3) && PARENT_OK(S, 4) && PARENT_OK(S, 5) && PARENT_OK(S, 6))
+#define EQX(S, i) (((i) < (S)._heap.n && HA(S, i).tp == GX.tp && HA(S, i).id == GX.id) ? 1 : 0)
+#define COUNTX(S) (EQX(S, 0) + EQX(S, 1) + EQX(S, 2) + EQX(S, 3) + EQX(S, 4) + EQX(S, 5) + EQX(S, 6))
+
+void h_heap_pop(void)
+{
+  TimerService S; IORA_TRUE = 1;
+  __CPROVER_assume(S._heap.n <= HEAP_CAP && HEAP_OK(S));
+  const size_t n0 = S._heap.n; const HeapItem min0 = S._heap.a[0]; const int c0 = COUNTX(S);
+  TimerService_heapPop(&S);
+  IORA_CANARY("h_heap_pop: returns");
+  /* H1 */ __CPROVER_assert(S._heap.n == (n0 == 0 ? 0 : n0 - 1), "H1 heapPop removes exactly one item (none from an empty heap)");
+  /* H2 */ __CPROVER_assert(HEAP_OK(S), "H2 heap order is restored after heapPop");
+  /* H3 */ __CPROVER_assert(n0 == 0 || COUNTX(S) == c0 - ((min0.tp == GX.tp && min0.id == GX.id) ? 1 : 0), "H3 the item removed is the old minimum; every other item is kept (multiset, witness value)");
+  /* H4 */ __CPROVER_assert(S._heap.n == 0 || !less(&S._heap.a[0], &min0), "H4 the new minimum is not earlier than the one removed (items are collected in deadline order)");
+}
+
+void h_heap_push(void)
+{
+  TimerService S; HeapItem x; IORA_TRUE = 1;
+  __CPROVER_assume(S._heap.n < HEAP_CAP && HEAP_OK(S));
+  const size_t n0 = S._heap.n; const int c0 = COUNTX(S);
+  iora_heap_emplace_back(&S._heap, x);                       /* the two statements every schedule path performs */
+  TimerService_siftUp(&S, iora_heap_size(&S._heap) - 1);
+  IORA_CANARY("h_heap_push: returns");
+  /* H5 */ __CPROVER_assert(S._heap.n == n0 + 1 && HEAP_OK(S), "H5 heap order holds after emplace_back + siftUp");
+  /* H6 */ __CPROVER_assert(COUNTX(S) == c0 + ((x.tp == GX.tp && x.id == GX.id) ? 1 : 0), "H6 exactly the new item is added (multiset, witness value)");
+}
+#endif
+
+#ifdef IORA_SEARCH
+/* SEARCH: concrete interval for REPLAY */
+void h_search(void)
+{
+  TimerService S; int64_t INTERVAL = nondet_i64();
+  __CPROVER_assume(INTERVAL >= -1000 && INTERVAL <= 1000);
+  IORA_TRUE = 1; G_guard_passed = 0; G_errors = 0;
+  (void)TimerService_schedulePeriodicGuard(&S, INTERVAL);
+  __CPROVER_assert(!G_guard_passed || INTERVAL > 0, "P1 schedulePeriodic goes on to store a periodic timer only if interval > 0 (INV_P; otherwise the re-armed time never passes now and collectDueLocked does not terminate)");
+}
+#endif
